@@ -47,18 +47,22 @@ def scalars_case(ctx, idx, rng):
     ctx.case(('scalars', f'L{L}', f'd{d}', src, 'real-ket' if not np.iscomplexobj(psi.A[0]) else 'complex-ket'),
              sample={'qd': qd, 'qD_psi': psi.qD, 'qD_chi': chi.qD, 'qD_H': H.qD})
     detail = {'qd': qd, 'psi': {'qD': psi.qD, 'A': psi.A}, 'chi': {'qD': chi.qD, 'A': chi.A}, 'H': {'qD': H.qD, 'A': H.A}}
-    np_, nc, nH = np.linalg.norm(vp), np.linalg.norm(vc), np.linalg.norm(mH, 2)
+    # natural scales: products of the tensor norms (rounding errors of the contractions are relative to these, not to the possibly much
+    # smaller norms of the contracted objects)
+    ts = lambda T: float(np.prod([max(np.linalg.norm(a), 1e-300) for a in T.A]))
+    np_, nc, nH = ts(psi), ts(chi), ts(H)
+    norm_psi = float(np.linalg.norm(vp))
     with monitor.write_protected(psi, chi, H):
         _close(ctx, 'vdot.first-argument-conjugated', ptn.vdot(chi, psi), np.vdot(vc, vp), np_ * nc, detail)
         _close(ctx, 'vdot.swap', ptn.vdot(psi, chi), np.vdot(vp, vc), np_ * nc, detail)
-        _close(ctx, 'norm', ptn.norm(psi), np_, np_, detail)
+        _close(ctx, 'norm', ptn.norm(psi), norm_psi, np_, detail)
         _close(ctx, 'operator_average', ptn.operator_average(psi, H), np.vdot(vp, mH @ vp), nH * np_ ** 2, detail)
         _close(ctx, 'operator_inner_product', ptn.operator_inner_product(chi, H, psi), np.vdot(vc, mH @ vp), nH * np_ * nc, detail)
     if d ** (2 * L) <= 4096:
         rho = gen.rand_mpo(rng, qd, L, Dmax=3, kind='complex')
         mr = refs.dense_operator(rho.A)
         with monitor.write_protected(rho, H):
-            _close(ctx, 'operator_density_average', ptn.operator_density_average(rho, H), np.trace(mH @ mr), np.linalg.norm(mH) * np.linalg.norm(mr), detail)
+            _close(ctx, 'operator_density_average', ptn.operator_density_average(rho, H), np.trace(mH @ mr), ts(H) * ts(rho), detail)
 
 
 def steps_case(ctx, idx, rng):
